@@ -13,8 +13,11 @@
 package c14
 
 import (
+	"bytes"
 	"encoding/json"
 	"fmt"
+	"os"
+	"path/filepath"
 	"reflect"
 	"sort"
 	"strings"
@@ -114,7 +117,7 @@ type Config struct {
 }
 
 type session struct {
-	cfg   Config
+	cfg    Config
 	vm     *otto.Otto
 	lines  []*Line
 	pre    []string
@@ -290,9 +293,16 @@ func (s *session) str(fn string, args ...any) (string, error) {
 	return v.String(), nil
 }
 
+// cfgText: OpenDev = the open findings (of any property) that the table mentions.
 func cfgText(c *core.Ctx) string {
-	return fmt.Sprintf("CONSTANTS\n OpenDev = %s\nINIT Init\nNEXT Next\nINVARIANT Emit\nCHECK_DEADLOCK FALSE\n",
-		core.TLASet(c.Findings.OpenIDs()))
+	tab, _ := os.ReadFile(filepath.Join(c.SpecDir, "LibShapeTab.tla"))
+	var ids []string
+	for _, id := range c.Findings.OpenIDs() {
+		if bytes.Contains(tab, []byte(`D("`+id+`")`)) {
+			ids = append(ids, id)
+		}
+	}
+	return fmt.Sprintf("CONSTANTS\n OpenDev = %s\nINIT Init\nNEXT Next\nINVARIANT Emit\nCHECK_DEADLOCK FALSE\n", core.TLASet(ids))
 }
 
 // Generate runs TLC on spec/C14.tla and returns the lines ordered by index.
@@ -374,9 +384,9 @@ func Check(c *core.Ctx) (map[string]any, []string, error) {
 	// 1. every line on every configuration
 	cfgs := configs(c.Thorough())
 	type result struct {
-		t    tally
-		bad  []mismatch
-		err  error
+		t        tally
+		bad      []mismatch
+		err      error
 		second   []string
 		dump     string
 		dumpSkip bool
@@ -529,20 +539,20 @@ func Check(c *core.Ctx) (map[string]any, []string, error) {
 		"states": res.Distinct, "transitions": res.Generated, "traces_validated_against_impl": evals,
 		"samples": samples, "exhaustive": true,
 		"evaluations": evals, "distinct_nontrivial": len(distinct),
-		"rule":                 "one line per object, own property and for-in subject of the ES5 table (all lines enumerated by TLC), each replayed on every configuration; distinct = distinct table entries (every entry is compared on >= 5 facets, none is trivial)",
-		"tlc":                  map[string]any{"generated": res.Generated, "distinct": res.Distinct, "lines": res.Lines, "wall_s": res.Wall},
-		"table":                map[string]any{"objects": nObj, "own_properties": nRow, "forin_subjects": nForin, "distinguishing_calls": nCall, "lines_changed_by_open_findings": nDevLines},
-		"configurations":       perCfg,
-		"conforming":           conform,
+		"rule":                          "one line per object, own property and for-in subject of the ES5 table (all lines enumerated by TLC), each replayed on every configuration; distinct = distinct table entries (every entry is compared on >= 5 facets, none is trivial)",
+		"tlc":                           map[string]any{"generated": res.Generated, "distinct": res.Distinct, "lines": res.Lines, "wall_s": res.Wall},
+		"table":                         map[string]any{"objects": nObj, "own_properties": nRow, "forin_subjects": nForin, "distinguishing_calls": nCall, "lines_changed_by_open_findings": nDevLines},
+		"configurations":                perCfg,
+		"conforming":                    conform,
 		"conforming_to_known_deviation": devHits,
-		"shape_dumps_compared": shapeCmp,
-		"shape_dump_bytes":     len(results[0].dump),
-		"extras_not_in_es5":    map[string]any{"count": nExtra, "by_owner": extraList},
-		"distinguishing_calls": dist,
-		"binding_self_test":    self,
-		"mutation_sweep":       sweep,
-		"concurrent_fresh":     conc,
-		"judge":                judge,
+		"shape_dumps_compared":          shapeCmp,
+		"shape_dump_bytes":              len(results[0].dump),
+		"extras_not_in_es5":             map[string]any{"count": nExtra, "by_owner": extraList},
+		"distinguishing_calls":          dist,
+		"binding_self_test":             self,
+		"mutation_sweep":                sweep,
+		"concurrent_fresh":              conc,
+		"judge":                         judge,
 	}
 	assume := []string{
 		"trusted: the JavaScript-side projection (harness/internal/c14 prelude: reflection through Object.getOwnPropertyDescriptor/getOwnPropertyNames/getPrototypeOf/isExtensible, Object.prototype.toString, typeof, for-in, direct eval for the distinguishing calls), Go float64 bit projection, TLC",
